@@ -13,9 +13,9 @@
 (*         and the complete projected post-state                           *)
 (* The Rust harness replays each line against the real crate.              *)
 (***************************************************************************)
-EXTENDS IndexTree, Json, SequencesExt
+EXTENDS IndexTree, Printer, Json, SequencesExt
 
-CONSTANT EmitMode    \* "full": state + observers + outcomes; "obs": state + observers; "none"
+CONSTANT EmitMode    \* "full": state + observers + outcomes; "print": state + expected renderings (C14); "none"
 
 Proj(S) == [count |-> S.count, live |-> S.live, links |-> LinkTuples(S),
             avail |-> S.avail, retired |-> S.retired, gen |-> S.gen, val |-> S.val,
@@ -40,11 +40,27 @@ SameEffectU(S, c) == c.op \in InsOps =>
 GenCalls(S) == {c \in CallsP(S, "any") : c.op \in InsOps => c.checked}
 CallSeq(S)  == SetToSeq(GenCalls(S))
 
-Bundle == [path |-> path, st |-> Proj(State), obs |-> ObsAll(State),
-           out |-> IF EmitMode = "full"
-                   THEN [i \in 1..Len(CallSeq(State)) |-> OutOf(State, CallSeq(State)[i])]
-                   ELSE <<>>]
+(***************************************************************************)
+(* C14 cases: for every reachable state, every live start node and six     *)
+(* assignments of line counts to nodes (variants 1-3: ((slot+v) mod 3)+1   *)
+(* lines, variants 4-6: every node v-3 lines), the expected rendering.     *)
+(* A payload with 3 lines has an EMPTY middle line.                        *)
+(***************************************************************************)
+PrintVariants == 1..6
+NL(S, v) == [x \in 1..S.count |-> IF v <= 3 THEN ((x + v) % 3) + 1 ELSE v - 3]
+PrintAll(S) == [v \in PrintVariants |->
+                 [nl |-> NL(S, v),
+                  r  |-> [x \in 1..S.count |-> IF x \in S.live THEN Rendering(S.f, x, NL(S, v)) ELSE <<>>]]]
+PrintLaws(S) == \A v \in PrintVariants : \A x \in S.live : RenderingLaws(S.f, x, NL(S, v))
+
+Bundle == IF EmitMode = "print"
+          THEN [path |-> path, st |-> Proj(State), print |-> PrintAll(State)]
+          ELSE [path |-> path, st |-> Proj(State), obs |-> ObsAll(State),
+                out |-> IF EmitMode = "full"
+                        THEN [i \in 1..Len(CallSeq(State)) |-> OutOf(State, CallSeq(State)[i])]
+                        ELSE <<>>]
 
 Emit == /\ \A c \in GenCalls(State) : SameEffectU(State, c)
+        /\ EmitMode = "print" => PrintLaws(State)
         /\ IF EmitMode = "none" THEN TRUE ELSE PrintT(<<"BUNDLE", ToJson(Bundle)>>)
 =============================================================================
